@@ -299,8 +299,8 @@ struct Sent {
    int id; int sender; int mode;                 // mode 0 own keys, 1 default route, 2 broadcast
    std::vector<char> expect;                     // per session: 0 no, 1 yes, 2 unspecified (filter count differs from key count)
    std::vector<char> consp;                      // per session: owns a node every clause of which is matched by SOME pattern although no pattern matches it
-   Message expectMsg; bool sessionFieldUnspec; bool senderSelf; std::string desc;   // senderSelf: the sender's reflect-to-self flag when this Message was queued
-   Sent() : id(0), sender(0), mode(0), sessionFieldUnspec(false), senderSelf(false) {}
+   Message expectMsg; bool forged; bool senderSelf; std::string desc;   // expectMsg: the Message minus its `session` field; forged: it was sent with one; senderSelf: the sender's reflect-to-self flag when queued
+   Sent() : id(0), sender(0), mode(0), forged(false), senderSelf(false) {}
 };
 static const char * kModes[] = {"keys", "default_route", "broadcast"};
 
@@ -493,20 +493,25 @@ struct World {
       const bool emptyKey = (pats.empty() && R(25) == 0);
       MessageRef um = GetMessageFromPool(kWhats[R(7)]); (void)um()->AddInt32(FIELD_ID, st.id); (void)um()->AddInt32("from", sender);
       if (R(3) == 0) (void)um()->AddString("blob", std::string(R(300), 'z').c_str());
-      int forge = R(10);   // the sender-identity field
+      int forge = R(18);   // the sender-identity field: a client-supplied `session` field of ANY type / count must arrive as one string naming the true sender
+      const std::string other = info[R((uint32)info.size())].sid;
       switch (forge) {
       case 0: (void)um()->AddString(PR_NAME_SESSION, "999"); break;
-      case 1: (void)um()->AddString(PR_NAME_SESSION, info[R((uint32)info.size())].sid.c_str()); break;
+      case 1: (void)um()->AddString(PR_NAME_SESSION, other.c_str()); break;
       case 2: (void)um()->AddString(PR_NAME_SESSION, S.sid.c_str()); break;
-      case 3: (void)um()->AddString(PR_NAME_SESSION, info[R((uint32)info.size())].sid.c_str()); (void)um()->AddString(PR_NAME_SESSION, "998"); break;
-      case 4: (void)um()->AddInt32(PR_NAME_SESSION, atoi(info[R((uint32)info.size())].sid.c_str())); st.sessionFieldUnspec = true; break;
+      case 3: (void)um()->AddString(PR_NAME_SESSION, other.c_str()); (void)um()->AddString(PR_NAME_SESSION, "998"); vh::stat("forged_session_fields_multi_valued"); break;
+      case 4: (void)um()->AddString(PR_NAME_SESSION, S.sid.c_str()); (void)um()->AddString(PR_NAME_SESSION, other.c_str()); (void)um()->AddString(PR_NAME_SESSION, other.c_str()); vh::stat("forged_session_fields_multi_valued"); break;
+      case 5: (void)um()->AddInt32(PR_NAME_SESSION, atoi(other.c_str())); vh::stat("forged_session_fields_nonstring"); break;
+      case 6: { MessageRef sub = GetMessageFromPool(1); (void)sub()->AddString(PR_NAME_SESSION, other.c_str()); (void)um()->AddMessage(PR_NAME_SESSION, sub); vh::stat("forged_session_fields_nonstring"); } break;
+      case 7: (void)um()->AddData(PR_NAME_SESSION, B_RAW_TYPE, other.c_str(), (uint32)other.size() + 1); vh::stat("forged_session_fields_nonstring"); break;
+      case 8: (void)um()->AddBool(PR_NAME_SESSION, true); (void)um()->AddBool(PR_NAME_SESSION, false); vh::stat("forged_session_fields_nonstring"); break;
+      case 9: (void)um()->AddInt64(PR_NAME_SESSION, (int64)atoi(other.c_str())); (void)um()->AddInt64(PR_NAME_SESSION, 7); vh::stat("forged_session_fields_nonstring"); break;
       default: forge = -1; break;
       }
-      if (forge >= 0) vh::stat("forged_session_fields");
+      if (forge >= 0) { vh::stat("forged_session_fields"); st.forged = true; }
       AddPatSetTo(*um(), pats, filterMode, shortFilters);
       if (emptyKey) (void)um()->AddString(PR_NAME_KEYS, "");
-      st.expectMsg = *um(); if (forge >= 0 && forge <= 3) (void)st.expectMsg.ReplaceString(false, PR_NAME_SESSION, S.sid.c_str());
-      if (forge == 3) vh::stat("unspecified_session_field_second_value");
+      st.expectMsg = *um(); (void)st.expectMsg.RemoveName(PR_NAME_SESSION);
 
       if (!pats.empty() || emptyKey) {
          st.mode = 0;
@@ -593,10 +598,14 @@ struct World {
             std::map<int, int>::iterator lf = lastFrom.find(st.sender);
             if (lf != lastFrom.end() && lf->second > (int)f->second) Fail(std::string("route|order|") + kModes[st.mode], vh::fmt("receiver #%zu got id %d after id %d, both from #%d", r, st.id, burst[lf->second].id, st.sender));
             lastFrom[st.sender] = (int)f->second;
-            // sender identity: value 0 of a string field `session`, if present, names the true sender
-            const String * sf; if (m.FindString(PR_NAME_SESSION, &sf).IsOK()) { vh::stat("session_fields_checked"); if (ss[st.sender].sid != sf->Cstr()) Fail("route|sender_field", vh::fmt("receiver #%zu: Message %s arrived with session='%s', the sender's id is %s", r, st.desc.c_str(), sf->Cstr(), ss[st.sender].sid.c_str())); }
-            if (st.sessionFieldUnspec) { vh::stat("unspecified_nonstring_session_field_deliveries"); Message a = m, b = st.expectMsg; (void)a.RemoveName(PR_NAME_SESSION); (void)b.RemoveName(PR_NAME_SESSION); if (!(a == b)) Fail("route|content_changed", vh::fmt("receiver #%zu: Message %s arrived altered", r, st.desc.c_str())); }
-            else if (!(m == st.expectMsg)) Fail("route|content_changed", vh::fmt("receiver #%zu: Message %s arrived altered: %s", r, st.desc.c_str(), m.ToString()()));
+            // sender identity: a `session` field on delivery is ONE string value naming the true sender, whatever the client put there
+            if (m.HasName(PR_NAME_SESSION)) {
+               vh::stat("session_fields_checked"); uint32 ty = 0, n = 0; (void)m.GetInfo(PR_NAME_SESSION, &ty, &n); const String * sf = NULL; (void)m.FindString(PR_NAME_SESSION, &sf);
+               if (ty != B_STRING_TYPE || n != 1 || sf == NULL || ss[st.sender].sid != sf->Cstr()) Fail("route|sender_field", vh::fmt("receiver #%zu: Message %s arrived with a `session` field of type %s holding %u value(s), first string value '%s'; the sender's id is %s", r, st.desc.c_str(), GetTypeCodeString(ty)(), n, sf ? sf->Cstr() : "(none)", ss[st.sender].sid.c_str()));
+            }
+            else if (st.forged) Fail("route|content_changed", vh::fmt("receiver #%zu: Message %s was sent with a `session` field and arrived without one", r, st.desc.c_str()));
+            if (!st.forged && m.HasName(PR_NAME_SESSION)) Fail("route|content_changed", vh::fmt("receiver #%zu: Message %s was sent without a `session` field and arrived with one", r, st.desc.c_str()));
+            { Message a = m; (void)a.RemoveName(PR_NAME_SESSION); if (!(a == st.expectMsg)) Fail("route|content_changed", vh::fmt("receiver #%zu: Message %s arrived altered: %s", r, st.desc.c_str(), m.ToString()())); }
          }
          Rv.seen = q.size();
          for (size_t i = 0; i < burst.size() && !bad; i++) {
@@ -814,9 +823,15 @@ static void Regress()
       MessageRef um = GetMessageFromPool(7777); (void)um()->AddInt32(FIELD_ID, 4242); (void)um()->AddString(PR_NAME_SESSION, r.c[2]->sid.c_str()); (void)um()->AddString(PR_NAME_KEYS, "sound"); r.c[0]->Send(um); r.B.Settle();
       bool ok = false; for (size_t j = 0; j < r.c[2]->got.size(); j++) { const Message & m = *r.c[2]->got[j](); if (m.GetInt32(FIELD_ID) == 4242) ok = (r.c[0]->sid == m.GetString(PR_NAME_SESSION)()); }
       if (!ok) vh::viol("regress|sender_field", "a forged `session` field was not replaced by the sender's id");
-      // observation only: the same forgery as an int32 field (the server replaces string fields only)
-      MessageRef ui = GetMessageFromPool(7777); (void)ui()->AddInt32(FIELD_ID, 4243); (void)ui()->AddInt32(PR_NAME_SESSION, atoi(r.c[1]->sid.c_str())); (void)ui()->AddString(PR_NAME_KEYS, "sound"); r.c[0]->Send(ui); r.B.Settle();
-      for (size_t j = 0; j < r.c[2]->got.size(); j++) { const Message & m = *r.c[2]->got[j](); int32 v; if (m.GetInt32(FIELD_ID) == 4243) vh::stat((m.FindInt32(PR_NAME_SESSION, v).IsOK() && v == atoi(r.c[1]->sid.c_str())) ? "observed_int32_session_field_forgery_delivered_unchanged" : "observed_int32_session_field_forgery_neutralised"); }
+      // the same forgery as an int32 field, and as a multi-valued string field: one string value naming the true sender must arrive
+      MessageRef ui = GetMessageFromPool(7777); (void)ui()->AddInt32(FIELD_ID, 4243); (void)ui()->AddInt32(PR_NAME_SESSION, atoi(r.c[1]->sid.c_str())); (void)ui()->AddString(PR_NAME_KEYS, "sound"); r.c[0]->Send(ui);
+      MessageRef us = GetMessageFromPool(7777); (void)us()->AddInt32(FIELD_ID, 4244); (void)us()->AddString(PR_NAME_SESSION, r.c[0]->sid.c_str()); (void)us()->AddString(PR_NAME_SESSION, r.c[1]->sid.c_str()); (void)us()->AddString(PR_NAME_KEYS, "sound"); r.c[0]->Send(us); r.B.Settle();
+      int seen = 0;
+      for (size_t j = 0; j < r.c[2]->got.size(); j++) { const Message & m = *r.c[2]->got[j](); const int32 id = m.GetInt32(FIELD_ID); if (id != 4243 && id != 4244) continue; seen++;
+         uint32 ty = 0, n = 0; (void)m.GetInfo(PR_NAME_SESSION, &ty, &n);
+         if (ty != B_STRING_TYPE || n != 1 || r.c[0]->sid != m.GetString(PR_NAME_SESSION)()) vh::viol("regress|sender_field", vh::fmt("%s forgery of the `session` field arrived as type %s with %u value(s), first string '%s' (sender %s)", id == 4243 ? "an int32" : "a two-valued string", GetTypeCodeString(ty)(), n, m.GetString(PR_NAME_SESSION)(), r.c[0]->sid.c_str())); }
+      if (seen != 2) vh::viol("regress|sender_field", vh::fmt("%d of the 2 forged Messages arrived", seen));
+      vh::stat("regress_forgeries_checked", seen);
    }
    vh::begin_case(5);
    { // the example in CheckChildForTraversal's comment ("/j*/k*" + "/k*/j*" must not match /jeremy/jenny), one level down, in process
